@@ -155,8 +155,8 @@ pub fn property() -> Property {
             prop_sub(
                 "generated",
                 "status codes 100..=999 x generated header lists (0..7 headers, empty names/values, arbitrary bytes without newlines) x location strings, for write_headers, simple_redirect and http_headers (via http::Response), against Vec and every bounded capacity; non-trivial = >=1 header; distinct = hash of the case",
-                18_000,
-                1_800_000,
+                100_000,
+                2_000_000,
                 |_| boxed((100u16..=999, header_list(), "[ -~]{0,60}|\\PC{0,12}").prop_map(|(code, headers, location)| Case { code, headers, location })),
                 test,
             ),
